@@ -71,6 +71,30 @@ class Evolver:
         self.base_structs = [s["name"] for s in base["structures"] if not s["name"].startswith("_") and s["name"] != "LSPObject"]
         self.closed_enums = [e["name"] for e in base["enumerations"] if not e.get("supportsCustomValues") and e["name"] != "CompletionItemKind"]
         self.kw_names = [k for k in keyword.kwlist if k.islower() and k.isalpha()]
+        # structures that are alternatives of a general union (>= 2 non-null alternatives, directly or through
+        # aliases): their hand-written hooks discriminate on today's property sets, so changing those sets needs a
+        # hook change - outside the generator's input discipline, like new general unions
+        bm = Model(base)
+        self.union_alternatives: set = set()
+
+        def alt_structs(t: dict, seen: tuple = ()) -> List[str]:
+            if t["kind"] == "reference":
+                n = t["name"]
+                if n in bm.structs:
+                    return [n]
+                if n in bm.aliases and n not in seen and n not in PAYLOAD_ALIASES:
+                    return alt_structs(bm.aliases[n]["type"], seen + (n,))
+                return []
+            if t["kind"] == "array":
+                return alt_structs(t["element"], seen)
+            if t["kind"] == "or":
+                return [s for i in t["items"] for s in alt_structs(i, seen)]
+            return []
+
+        for _, t in bm.union_occurrences():
+            if len([i for i in t["items"] if not bm.is_null(i)]) >= 2:
+                for i in t["items"]:
+                    self.union_alternatives.update(alt_structs(i))
 
     # -- helpers --------------------------------------------------------------------
     def pick(self, seq: List[Any]) -> Any:
@@ -269,7 +293,8 @@ class Evolver:
                                    optional=False if focus.startswith("ornull") else None)
 
     def e_new_property(self, force: Optional[str] = None, keyword: bool = False, optional: Optional[bool] = None) -> None:
-        cands = [s for s in self.doc["structures"] if not s["name"].startswith("_") and s["name"] != "LSPObject"]
+        cands = [s for s in self.doc["structures"] if not s["name"].startswith("_") and s["name"] != "LSPObject"
+                 and s["name"] not in self.union_alternatives]
         s = self.pick(cands)
         m = Model(self.doc)
         local = {p["name"] for p in m.flat_props(s["name"])}
@@ -399,7 +424,8 @@ class Evolver:
         self.edits.append({"edit": "E6-mark", "kind": kind, "where": where, "marks": marks})
 
     def e_remove_optional(self) -> None:
-        cands = [(s, p) for s in self.doc["structures"] for p in s["properties"] if p.get("optional")]
+        cands = [(s, p) for s in self.doc["structures"] for p in s["properties"] if p.get("optional")
+                 and s["name"] not in self.union_alternatives]
         if not cands:
             return
         s, p = self.pick(cands)
